@@ -524,8 +524,9 @@ func (in *Interp) minmax(isMin bool, a, b Value, t types.Type) Value {
 		// a when a<b (min) / a>b (max), b when the other way, and for equality prefer the one with
 		// sign bit set (min) or clear (max).  Sign test: 1/x < 0 is awkward; use fp.isNegative via lt zero on bits is unavailable,
 		// so treat equal values as interchangeable except zeros, which we distinguish with division.
-		one := ts.FConst(at.S.W, 1)
-		aNeg := ts.FCmp(term.OpFpLt, ts.FBin(term.OpFpDiv, one, at), ts.FConst(at.S.W, 0))
+		// for equal operands (zeros of different sign) the sign bit decides
+		bits := in.fpBits(in.curState, at)
+		aNeg := ts.Eq(ts.Extract(bits, at.S.W-1, at.S.W-1), ts.Const(1, 1))
 		if isMin {
 			pick = ts.Ite(lt, at, ts.Ite(gt, bt, ts.Ite(aNeg, at, bt)))
 		} else {
